@@ -5,5 +5,6 @@ CONSTANTS
   MaxCalls = 1
   Torn = TRUE
   UseOnce = TRUE
+  FastPath = TRUE
 INVARIANT NoTorn
 CHECK_DEADLOCK FALSE
